@@ -25,11 +25,17 @@ NEEDS = {
  "C15-wslen-ignored-branch": ("cursor in or after an ignored token whose whitespace is not canonical", "C15/B.list1_ignored", "—"),
  "C17-ascii-shortcut-utf16": ("UTF-16 BOM and pure-ASCII formatted text: encoder shortcut bypasses UTF-16", "C17/U3.utf16le", "U3 UTF-16 instances made to run (Vec::reserve model) because of this seed"),
  "C03-stage-order-content-after-wrap": ("keyword/comment normalisation moved after the wrapper in `make_formatter`: a comment that gets rewritten within one column of wrap_column is measured before and written after", "guard K-STAGES (C01, C03, C06, C08)", "reported as UNDECIDED (exit 2), not as a violation: the compositional argument no longer covers the pipeline; guard written before this seed arrived"),
- "C10-mls-indent-always-spaces": ("use_tabs=true and a multi-line literal with non-zero indentation: interior lines indented with spaces", "C12/M1c.lf_to_crlf_tabs (shared into C10)", "instance shared into C10 because of this seed"),
+ "C10-mls-indent-always-spaces": ("use_tabs=true and a multi-line literal with non-zero indentation: interior lines indented with spaces", "C12/M1c.lf_to_crlf_tabs (shared into C10)", "instance shared into C10 because of this seed; first reported UNDECIDED (CBMC aborted inside `slice::repeat` with a symbolic count), decided since `stub_str_repeat_bounded`"),
  "C04-consume-to-eof-char-count": ("unterminated `{`/`(*` comment or directive with U+3000 among the trailing blanks: token end inside a character => slicing panic", "C13/Z2 (shared into C04)", "Z2 written because of this seed"),
  "C02-lines-custom-crlf-reset": ("same site as C12-lines-custom-crlf-lf, seeded independently for C02", "C12/M1c.crlf_then_empty_lf (shared into C02)", "—"),
  "C12-closing-quote-u3000": ("closing quotes indented with U+3000: literal taken for non-conforming and left alone", "C12/M1c.u3000_base", "instance added (and the reference made U+3000-aware) because of this seed"),
  "C06-solution-return-at-ignored": ("`pasfmt off` region in the middle of a statement: `reconstruct_solution` returns at the first ignored token", "C08/S3 (shared into C06)", "S3 got symbolic ignored flags because of this seed"),
+ "C04-routine-header-attr-skip-hang": ("routine header with an unclosed `[` before the first `;` (`function Foo: [Unsafe`): new skip loop in `parse_routine_header` without an end-of-input test spins forever", "—", "**missed**: parser not encodable (§6)"),
+ "C07-safety-net-cr-ignored": ("CR-only line ends inside a `pasfmt off` region, `//` comment followed by another ignored token (re-introduces F1)", "C07/I4.emit_verbatim_ws1", "—"),
+ "C09-mls-already-indented-early-return": ("multi-line literal already at its target indentation whose interior terminators differ from the configured line ending: early `return None`", "C12/M1c.lf_to_crlf_tabs, M1c.crlf_to_lf (shared into C09)", "—"),
+ "C13-avx2-del-folded": ("DEL (0x7F) after identifier characters within a full 32-byte AVX2 window (case folding maps DEL onto `_`)", "C13/V1 (every instance)", "the SMT lane translator (V3) *refuses* the re-shaped code (UNDECIDED) rather than guessing; V1 decides"),
+ "C15-unsorted-cursors-early-break": ("cursor list not in ascending order (`--cursor 7,0`): token walk stops once the *last* cursor is attached", "C15/A2.pair_list1_5_1, _7_0, list3_8_2, list4_14_1", "**missed at first** (every harness used one cursor): A2/B2 and the two-cursor hooks written because of this seed"),
+ "C17-replacement-char-rejected": ("well-formed input containing U+FFFD: `decode_file` takes the character for a decoding error and refuses the file", "C17/U2 (UNDECIDED)", "**missed at first** (payload alphabet was ASCII; U2 was thorough-only). U2 instances with an arbitrary 3-byte scalar were written and U2 moved into the quick tier; with the change applied the new `str::contains(char)` (core's `simd_contains`) exhausts 10 GB, so the check ends UNDECIDED (exit 2) -- an alarm, not a decided violation"),
  "C17-double-bom": ("input starting with BOM + U+FEFF: second BOM stripped by `decode_with_bom_removal`", "C17/U2", "U2 written (with contract models of the library decoders) because of this seed"),
 }
 rows = ["| seeded change | what it needs to manifest | caught by | verdict of the check with the change applied | notes |", "|---|---|---|---|---|"]
